@@ -9,7 +9,18 @@
     and opens it with mode "w"); a refused [save] leaves it as it was (the assertion is tested first).
     [C17_overwrite], [C17_resave], [C17_exit_exception], [C17_enter], [C17_str] unfold these definitions.
     What is PROVED about the functions: the text produced ([encode_file] through the newline translation),
-    its reading back, the name test on arbitrary paths, the [with] block composition.
+    its reading back, the name test on arbitrary paths.
+    The [with] block (section "the [with] block": [C17_init], [C17_enter], [C17_with_block], [C17_with_block_refused],
+    [C17_exit_nopath], [C17_exit_is_save], [C17_exit_exception], [C17_with_twice], [C17_wl_save], [C17_lines_emit],
+    [C17_state_with_block]) is a MODEL of [__init__] / [__enter__] / [__exit__]: facts about the small [wl_file]
+    state machine of Model/Save.v ([wl_init], [wl_enter], [wl_append], [wl_exit], [wl_save], [ws_file], [ws_clear]),
+    which follow by unfolding its definitions and which are NOT evaluated by the Coq side of the correspondence
+    check (REVIEW2 N4): Corr/CheckPure.v evaluates only [save filename None recs], [decode_file] and
+    [str_worklist].  That this state machine is what the library does on entering and leaving a block (record
+    list cleared on enter, file written on exit also when an exception leaves the block, a refused save leaves
+    the old file, no residue of a longer old file) is compared by the Python oracle of the `save` suite
+    (harness/suites/pure.py, oracle_C17; values of "via": `with`, `with_exc`, `with_save_other`, `reenter_foreign`), as C11 does for the report
+    text.  There is no `enter` operation in [Program.op], so no theorem relates a block to [run].
 
     Latin-1 (modelling assumption, no theorem): records are [string]s, i.e. lists of [ascii]; every character
     of the file is therefore one byte 0..255 and [encoding="latin_1"] is the identity on them. A record with a
@@ -93,7 +104,14 @@ Theorem C17_resave : forall path old r1 r2, save path (fst (save path old r1)) r
 Proof. exact sv_resave. Qed.
 Print Assumptions C17_resave.
 
-(** ** the [with] block *)
+(** ** the [with] block
+
+    MODEL-ONLY (REVIEW2 N4): every theorem of this section is a fact about the [wl_file] state machine of
+    Model/Save.v, obtained by unfolding [wl_enter] / [wl_append] / [wl_exit] (the flag [raised] is ignored by
+    definition); none of these functions is evaluated by the correspondence check.  The with-block behaviour of
+    the LIBRARY is compared with this model by the Python oracle of the `save` suite (cases `with`, `with_exc`,
+    `with_save_other`, `reenter_foreign`).  What the Coq side of the check does evaluate is [save], whose
+    result these theorems reduce to ([C17_exit_is_save], [C17_wl_save], [C17_overwrite]). *)
 
 (** construction and entering start from an empty record list and keep the path *)
 Theorem C17_init : forall path, wf_recs (wl_init path) = [] /\ wf_path (wl_init path) = path.
